@@ -3,13 +3,16 @@ import MoneroModel.Proofs.KeysBasic
 import MoneroModel.Proofs.KeysSound
 import MoneroModel.Proofs.KeysComplete
 import MoneroModel.Proofs.KeysRef
+import MoneroModel.Proofs.EdwardsLawful
 /-! C13 — "Keys are accepted exactly when canonical, and key arithmetic is the group law".
 Proved here, about the model `Monero.Keys` (which mirrors `PrivateKey::from_slice` / `PublicKey::from_slice` including dalek's
 permissive `decompress` followed by the recompress-and-compare of key.rs): the acceptance conditions and the byte / text /
-consensus round trips. The "is the group law" half of the property is conformance (operators delegate to curve25519-dalek):
-it is decided differentially against `Ref.Ed25519` by Drv/C13 + harness/src/c13.rs, not by a theorem. -/
+consensus round trips. The "is the group law" half of the property: the operators delegate to curve25519-dalek (a dependency), whose results are
+compared on every run with `Ref.Ed25519` (Drv/C13 + harness/src/c13.rs); that this reference IS the group law of the curve
+is proved (section GroupLaw at the end: `C13_group_law`, from Proofs/EdwardsGroup, EdwardsRef, EdwardsLawful). -/
 namespace C13
-open Monero Monero.Keys Ed
+open Monero hiding leNat toBytesLE
+open Monero.Keys Ed
 
 /-- a secret key is accepted exactly when it is 32 bytes whose little-endian value is below the group order -/
 theorem C13_secret_iff (b : Bytes) : secretAccept b = true ↔ b.length = 32 ∧ leNat b < Ed.l := secretAccept_iff b
@@ -131,4 +134,24 @@ example : secretAccept (toBytesLE (Ed.l - 1) 32) = true ∧ secretAccept (toByte
 set_option maxRecDepth 100000 in
 example : publicAccept (toBytesLE Ed.Gy 32) = true := by decide +kernel
 
+
+/-! ### key arithmetic is the group law
+
+The spec side of the arithmetic operations (`c13_pub_of`, `c13_add`, `c13_sub`, `c13_smul`: what dalek's results are compared
+with on every run) is the executable reference `Ref/Ed25519.lean`. These theorems say what that reference computes: the
+operations of the abelian group of points of the twisted Edwards curve (`Proofs/EdwardsGroup.lean`), through the encoding
+that `PublicKey::from_slice` accepts. -/
+section GroupLaw
+open Monero.Edw
+/-- the points of −x² + y² = 1 + d·x²·y² over GF(2^255 − 19) form an abelian group under the complete addition law -/
+theorem C13_curve_points_form_a_group : Nonempty (AddCommGroup EdPoint) := ⟨inferInstance⟩
+/-- addition, subtraction, scalar multiplication (k < 2^260), the base point, encoding and strict decoding of the reference
+instance are those of that group: `toPoint (add a b) = toPoint a + toPoint b`, `toPoint (smul k a) = k • toPoint a`, … -/
+theorem C13_group_law : RefinesEd Drv.refOps := refOps_refines_edOps
+/-- the base point has order exactly `l` (so `PublicKey::from_private_key` is injective on reduced scalars) -/
+theorem C13_base_point_order : addOrderOf edOps.base = Ed.l := addOrderOf_base
+/-- the encoding is injective on points and strict decoding inverts it: accepted key bytes and curve points correspond one to one -/
+theorem C13_encoding_bijective : Function.Injective edOps.enc ∧ ∀ A : EdPoint, edOps.dec (edOps.enc A) = some A :=
+  ⟨edOps_lawful.enc_inj, edOps_lawful.dec_enc⟩
+end GroupLaw
 end C13
